@@ -34,7 +34,7 @@ def run(c, chk):
         for call in list(f.calls('strcmp')) + list(f.calls('strcasecmp')):
             for a in call.args:
                 if loads_field(f, a, '%struct.cfg_opt_t', 'name'):
-                    comparers.add(f.name)
+                    comparers |= set(c.owners(f.name))
     extra = sorted(comparers - NAME_COMPARERS)
     if extra:
         chk.fail('R11.1', 'second-resolver:%s' % ','.join(extra), c.where(c.func(extra[0])), 'option names are also compared in %s(): a second, possibly diverging resolver' % ', '.join(extra))
@@ -42,19 +42,19 @@ def run(c, chk):
         raise report.Broken('the leaf comparison routine was not found')
     else:
         chk.ok('R11.1', 'name comparisons', 'only in %s' % sorted(comparers), sample=True)
-    leaf_callers = sorted(set(f.name for f in c.all_funcs() for _ in f.calls('cfg_getopt_leaf')))
+    leaf_callers = sorted(set(o for f in c.all_funcs() for _ in f.calls('cfg_getopt_leaf') for o in c.owners(f.name)))
     if leaf_callers != ['cfg_getopt_secidx']:
         chk.fail('R11.1', 'leaf-callers:%s' % ','.join(leaf_callers), c.where(c.need('cfg_getopt_leaf')), 'the leaf lookup is called from %s, not only from the resolver' % leaf_callers)
     else:
         chk.ok('R11.1', 'callers of cfg_getopt_leaf', 'cfg_getopt_secidx only')
     sec = c.need('cfg_getopt_secidx')
-    callees = set(x.callee_name() for x in sec.calls())
+    callees = set(x.callee_name() for x in c.deep_calls(sec))
     for need, what in (('cfg_opt_getnsec', 'an index qualifier'), ('cfg_opt_gettsecidx', 'a title qualifier'), ('parse_title', 'title unquoting')):
         if need in callees:
             chk.ok('R11.1', 'resolver -> %s' % need, 'used for %s, the same routine the single-level accessor uses' % what, nontrivial=False)
         else:
             chk.fail('R11.1', 'qualifier-impl:%s' % need, c.where(sec), 'the resolver no longer uses %s() for %s' % (need, what))
-    arr_callers = sorted(set(f.name for f in c.all_funcs() for _ in f.calls('cfg_getopt_array')) - {'cfg_getopt_array'})
+    arr_callers = sorted(set(o for f in c.all_funcs() for _ in f.calls('cfg_getopt_array') for o in c.owners(f.name)) - {'cfg_getopt_array'})
     if set(arr_callers) <= {'cfg_set_validate_func', 'cfg_set_validate_func2'}:
         chk.ok('R11.1', 'callers of the schema walker', '%s' % arr_callers)
     else:
